@@ -430,6 +430,32 @@ def tab14(units, R, fn_name='cJSON_Duplicate_rec'):
                 why = 'helper %s returns %s without a fresh copy and not under cJSON_StringIsConst' % (h.name, expr_str(x)[:40])
                 break
             return ok, why, ok
+        if name == 'string' and r.get('k') == 'mem' and r['f'] == 'string' and from_source(d, r) and d.stmt is not None:
+            # if (item->type & cJSON_StringIsConst) { copy->string = item->string; } else { copy->string = strdup(..); }
+            dcfg = d.fn.cfg()
+            sn = dcfg.node_of_expr(d.stmt['id'])
+            srcb = strip_casts(r['b'])
+
+            def set_edge(nn, l):
+                if nn.kind != 'branch' or l is None or l[0] not in ('T', 'F') or nn.expr is None:
+                    return False
+                e = strip_casts(nn.expr)
+                want = 'T'
+                while e.get('k') == 'un' and e['op'] == '!':
+                    want = 'F' if want == 'T' else 'T'
+                    e = strip_casts(e['e'])
+                pc = cmp_parts(e)
+                if pc is not None and pc[2] == 0 and pc[1] in ('==', '!='):
+                    if pc[1] == '==':
+                        want = 'F' if want == 'T' else 'T'
+                    e = strip_casts(pc[0])
+                if not (e.get('k') == 'bin' and e['op'] == '&' and any('cJSON_StringIsConst' in (y.get('m') or []) for y in walk(e))):
+                    return False
+                if not any(y.get('k') == 'mem' and y['f'] == 'type' and expr_str(strip_casts(y['b'])) == expr_str(srcb) for y in walk(e)):
+                    return False
+                return l[0] == want
+            if sn is not None and guarded_by(dcfg, sn.id, set_edge):
+                return True, 'shared only under cJSON_StringIsConst of the source', True
         return False, 'pointer field assigned %s (shares memory with the source)' % expr_str(r)[:50], False
 
     FULL = 0xFFFFFFFF
